@@ -14,12 +14,12 @@ import nvlib
 CPU = "riscv"
 M32 = 0xffffffff
 
-LEAN_MODULES = ["NakenVerif.Riscv.Props", "NakenVerif.Riscv.RoundTrip"]
+LEAN_MODULES = ["NakenVerif.Riscv.Props", "NakenVerif.Riscv.RoundTrip", "NakenVerif.Riscv.NoLossy"]
 P = "NakenVerif.Riscv."
 C01_THEOREMS = [P + n for n in (
     "Arch.decode_encode", "Arch.encode_decode", "rv32i_encode_sound", "rv32i_encode_sound_defined", "rv32i_encode_len",
     "rv32i_fixpoint_structured", "table_spec_rows", "table_spec_names", "table_rows_known", "table_rt_rows",
-    "rv32i_fence_sound", "fence_encode")]
+    "rv32i_fence_sound", "fence_encode", "rv32i_fixpoint_exact", "encode_ne_lossy")]
 C06_THEOREMS = [P + n for n in (
     "rv32i_encode_rejects_unfit", "rv32i_encode_injective_mod_field", "rv32i_encode_injective_imm12",
     "rv32i_encode_exact_field", "table_spec_rows")]
